@@ -46,6 +46,7 @@ pub fn tier_name(t: Tier) -> &'static str {
 // ---------------------------------------------------------------------------------------
 
 pub fn worker_main(prop: &str, tier: Tier, base: u64, start: u64, end: u64, stride: u64) {
+    crate::exec::enable_heartbeat();
     let stdout = std::io::stdout();
     let mut i = start;
     while i < end {
@@ -89,17 +90,20 @@ pub enum ChildResult {
 pub fn eval_file_main(path: &str) {
     let txt = std::fs::read_to_string(path).expect("read scenario");
     let sc: Scenario = serde_json::from_str(&txt).expect("parse scenario");
+    crate::exec::enable_heartbeat();
     let out = evaluate(&sc);
     println!("OUTCOME {}", serde_json::to_string(&out).unwrap());
 }
 
-fn wait_timeout(child: &mut Child, secs: u64) -> Option<std::process::ExitStatus> {
+/// Waits for the child; gives up when it has been silent (no line on stdout, see `exec::heartbeat`) for `secs`.
+fn wait_timeout(child: &mut Child, secs: u64, activity: &std::sync::Arc<std::sync::atomic::AtomicU64>) -> Option<std::process::ExitStatus> {
     let t0 = Instant::now();
     loop {
         match child.try_wait() {
             Ok(Some(st)) => return Some(st),
             Ok(None) => {
-                if t0.elapsed() > Duration::from_secs(secs) {
+                let last = Duration::from_millis(activity.load(std::sync::atomic::Ordering::Relaxed));
+                if t0.elapsed().saturating_sub(last) > Duration::from_secs(secs) {
                     let _ = child.kill();
                     let _ = child.wait();
                     return None;
@@ -132,11 +136,25 @@ pub fn eval_path_in_child(file: &FsPath) -> ChildResult {
         .stderr(Stdio::piped())
         .spawn()
         .expect("spawn child");
-    let mut so = child.stdout.take().unwrap();
+    let so = child.stdout.take().unwrap();
     let mut se = child.stderr.take().unwrap();
+    let activity = std::sync::Arc::new(std::sync::atomic::AtomicU64::new(0));
+    let act2 = activity.clone();
+    let t_spawn = Instant::now();
     let h1 = std::thread::spawn(move || {
         let mut s = String::new();
-        let _ = std::io::Read::read_to_string(&mut so, &mut s);
+        for line in BufReader::new(so).lines() {
+            match line {
+                Ok(l) => {
+                    act2.store(t_spawn.elapsed().as_millis() as u64, std::sync::atomic::Ordering::Relaxed);
+                    if l != "H" {
+                        s.push_str(&l);
+                        s.push('\n');
+                    }
+                }
+                Err(_) => break,
+            }
+        }
         s
     });
     let h2 = std::thread::spawn(move || {
@@ -144,7 +162,7 @@ pub fn eval_path_in_child(file: &FsPath) -> ChildResult {
         let _ = std::io::Read::read_to_string(&mut se, &mut s);
         s
     });
-    let st = wait_timeout(&mut child, 60);
+    let st = wait_timeout(&mut child, 60, &activity);
     let out = h1.join().unwrap_or_default();
     let err = h2.join().unwrap_or_default();
     for line in out.lines() {
@@ -570,6 +588,8 @@ pub fn trigger_matches(name: &str, sc: &Scenario, _v: &V) -> bool {
         "never" => false,
         // D11: sinc resampler with oversampling_factor 1 and a 3- or 4-point interpolation
         "sinc_oversampling1_quadratic_or_cubic" => c.kind.is_sinc() && c.oversampling == 1 && (c.interp % 4) >= 2,
+        // D18: sinc resamplers with the degenerate filter length 0 (no history frames in front of the read position)
+        "sinc_out_sinc_len_zero" => c.kind.is_sinc() && c.sinc_len_rounded() == 0,
         _ => {
             let _ = c;
             false
@@ -598,6 +618,7 @@ pub struct CheckCfg {
 }
 
 enum Msg {
+    Beat(usize),
     Begin(usize, u64),
     End(usize, u64, Box<Outcome>),
     Recheck(usize, u64, bool),
@@ -635,6 +656,9 @@ fn spawn_worker(cc: &CheckCfg, w: usize, start: u64, tx: mpsc::Sender<Msg>) -> C
             match tag {
                 "B" => {
                     let _ = tx.send(Msg::Begin(w, i));
+                }
+                "H" => {
+                    let _ = tx.send(Msg::Beat(w));
                 }
                 "E" => {
                     if let Some(js) = it.next() {
@@ -699,6 +723,9 @@ pub fn check_main(cc: &CheckCfg) -> i32 {
         match rx.recv_timeout(Duration::from_millis(500)) {
             Ok(Msg::Begin(w, i)) => {
                 slots[w].current = Some(i);
+                slots[w].last_activity = Instant::now();
+            }
+            Ok(Msg::Beat(w)) => {
                 slots[w].last_activity = Instant::now();
             }
             Ok(Msg::Recheck(_, i, mism)) => {
